@@ -1206,6 +1206,7 @@ func (w *World) Coq(obs *Obs) string {
 		strings.Join(resolver, "; "), strings.Join(principals, "; "), strings.Join(keyres, "; "), w.Ctx.Now)
 	fmt.Fprintf(&sb, " ob_auth := %s;\n ob_path := %s;\n ob_verifies := [%s];\n ob_checks := [%s];\n ob_derives := [%s];\n ob_err_revoked := %s |}",
 		coqBool(obs.Authorized), w.coqPath(obs.Path), strings.Join(verifs, "; "), strings.Join(checks, ";\n   "), strings.Join(derives, ";\n   "), coqBool(obs.ErrRevoked))
+	tokenViewHook(w) // tokenview.go: root block bytes + observed signature checks of every token (coq/Check_TokenView.v)
 	return sb.String()
 }
 
@@ -1221,6 +1222,9 @@ func sigCodeOf(v principal.Verifier) uint64 {
 
 // writeWorldCases writes shards of case files for a list of (world, obs).
 func writeWorldCases(dir, prefix string, cases []string, shards int, checkFn string) error {
+	if err := flushTokenViews(dir, prefix, shards); err != nil { // tokenview.go: tview_*.v next to the case files
+		return err
+	}
 	if shards < 1 {
 		shards = 1
 	}
